@@ -117,12 +117,36 @@ MonPatterns ==
     Pat2("forbids", X12("X", NoPred, "", NoPred), Dj(<<Ev("y", "", NoPred), Ev("x3", "", VEq(NumA("1")))>>)) }
 MonShapes == {Prop(s, WithTime(p, tm)) : s \in MonScopes, p \in MonPatterns, tm \in MonTimes}
 
+\* references against message schemas (C04 / C17): a reference R in every position of a predicate
+SRefs == { Own("n"), Own("k"), Own("s"), Own("b"), Own("K"), Own("nope"),
+           Idx(Own("xs"), NumA("0")), Idx(Own("xs"), NumA("7")), Idx(Own("fx"), NumA("2")), Idx(Own("fx"), NumA("3")),
+           Fld(Own("m"), "n"), Fld(Own("m"), "t"), Fld(Fld(Own("m"), "deep"), "z"), Fld(Own("m"), "nope"),
+           Fld(Fld(Own("m"), "deep"), "nope"), Fld(Own("n"), "x"), Fld(Own("xs"), "n"), Idx(Own("n"), NumA("0")), Idx(Own("m"), NumA("0")),
+           Fld(Idx(Own("ms"), NumA("0")), "n"), Fld(Idx(Own("ms"), NumA("1")), "nope"), Fld(Idx(Own("mf"), NumA("1")), "t"),
+           Fld(Idx(Own("mf"), NumA("2")), "n"), Fld(Idx(Own("mf"), NumA("1")), "n"),
+           Fld(VarR("@A"), "n"), Fld(Fld(Fld(VarR("@A"), "m"), "deep"), "z"), Fld(VarR("@A"), "nope"),
+           Idx(Fld(VarR("@A"), "fx"), NumA("3")), Idx(Fld(VarR("@A"), "fx"), NumA("1")), Fld(VarR("@A"), "s"),
+           Idx(Own("xs"), Own("k")), Idx(Own("fx"), Own("k")) }
+SArrs == { Own("xs"), Own("fx"), Own("n"), Own("nope"), Fld(VarR("@A"), "xs"), Fld(Own("m"), "n"), Own("ms") }
+SCtx(r) == { Bn(">", r, NumA("0")), Bn("=", r, StrA("$s")), Un("not", r),
+             Bn(">", Idx(Own("xs"), r), NumA("0")),
+             Bn("in", Own("n"), Rng("[", NumA("0"), r, "]")), Bn("in", Own("n"), SetOf(<<r, NumA("1")>>)),
+             Bn(">", Call("abs", r), NumA("0")), Bn(">", Call("abs", Bn("+", r, NumA("1"))), Own("n")),
+             Qn("forall", "j", Own("xs"), Bn(">", VarR("@j"), r)),
+             Bn("and", Bn(">", Own("n"), NumA("0")), Bn("<", r, Own("k"))) }
+SACtx(a) == { Qn("forall", "j", a, Bn(">", VarR("@j"), NumA("0"))), Bn("in", Own("n"), a), Bn(">", Call("len", a), NumA("0")) }
+SPreds == UNION {SCtx(r) : r \in SRefs} \cup UNION {SACtx(a) : a \in SArrs}
+SchemaShapes ==
+  {Prop(Scope("after", Ev("t", "A", NoPred), NoPred), Pat1("no", Ev("u", "", Pr(c)))) : c \in SPreds}
+  \cup {Prop(Scope("globally", NoPred, NoPred), Pat2("causes", Ev("t", "A", Pr(Bn(">", Own("n"), NumA("0")))), Ev("w", "", Pr(c)))) : c \in UNION {SCtx(r) : r \in {Own("n"), Own("q"), Fld(VarR("@A"), "n"), Fld(VarR("@A"), "q")}}}
+
 ShapeMembers ==
   CASE ShapeFamily = "simple" -> SimpleShapes
     [] ShapeFamily = "quant"  -> QuantShapes
     [] ShapeFamily = "disj"   -> DisjShapes
     [] ShapeFamily = "width"  -> WidthShapes
     [] ShapeFamily = "mon"    -> MonShapes
+    [] ShapeFamily = "schema" -> SchemaShapes
     [] OTHER -> {}
 
 SInit == cst \in ShapeMembers
